@@ -486,7 +486,7 @@ func TestVerifC05(t *testing.T) {
 					ins[i] = rng.Bytes(16)
 					outs[i] = ref.SM4Encrypt(key, ins[i])
 				}
-				nOps := hk.N(20000, 200000)
+				nOps := hk.N(400000, 2000000) // (short calls: many of them, so that calls overlap also on a loaded machine)
 				hk.Parallel(nOps, func(i int) {
 					j := i % nb
 					o := make([]byte, 16)
